@@ -22,8 +22,9 @@ RULE = ("one case = one instance (p, q, c, penalty|None) plus an encoding; the i
         "None / 0 / small / about max/2 / large. Tiny class (<=3x3, masses <=4) also against the brute-force enumeration. "
         "Non-trivial = at least 2 non-empty bins on each side, non-constant c, and an optimal flow with >= 2 non-zero "
         "entries; distinct by hash of the case.")
-TRUSTED = ["modelled at algorithm level, not verified line by line: min_cost_flow.hpp (binary heap, reduced-cost updates); "
-           "the model uses successive shortest paths with Bellman-Ford on the same reduced graph",
+TRUSTED = ["min_cost_flow.hpp is modelled twice: at algorithm level (successive shortest paths with Bellman-Ford; this is the "
+           "certified model whose answers are proved correct) and at line level (heap, position table, reduced costs; it "
+           "reproduces the implementation's flows exactly and its heap index safety is proved); int is modelled by Z",
            "the Python Bellman-Ford that proposes the dual point (alpha, beta, gamma) is untrusted: the extracted, proved "
            "checker emd_cert_ok verifies it",
            "NumPy int32 conversion of the arguments in the wrapper (np.ascontiguousarray)"]
@@ -581,6 +582,11 @@ def kernel_crosscheck(ctx, cases, outs):
     bad = [k for k, b in zip(idx + idx[:10], r) if b is not True]
     if bad:
         return "vm_compute evaluation of Model.EmdCert.entry_emdc differs from the extracted program on case %d" % bad[0], len(args)
+    largs = args[:20]
+    lexp = ctx.run_model("entry_emdl", largs)
+    r = ctx.coq_eval_eq("Model.EmdMcf", "entry_emdl", largs, lexp, tag="emdl")
+    if not all(b is True for b in r):
+        return "vm_compute evaluation of Model.EmdMcf.entry_emdl differs from the extracted program", len(args)
     # the checker itself: kernel evaluation must accept what the extracted checker accepted
     cargs = []
     for k in idx:
